@@ -28,6 +28,7 @@ def parseErr : String → Option ErrKind
   | "nil" => some .nil
   | "rejected" => some .rejected
   | "transport" => some .transport
+  | "unimplemented" => some .unimplemented
   | _ => none
 
 def obsOf {σ ε : Type} (V : Vocab σ ε) (rpc : Bool) (r : Run σ ε) : SExp :=
@@ -82,22 +83,22 @@ def processLine (line : String) : String :=
             script.mapM? (fun o => o.str?.bind Outcome.parse?) with
       | some evt, some src, some dst, some script =>
         let rpc := wiring.startsWith "rpc"
-        let fixed := codeFixed || wiring.endsWith "fixed"   -- the model of the code as it is
+        let cfg := codeCfg   -- the model of the code as it is (a wiring suffix "fixed" is accepted and means nothing any more)
         let strict := flavour == "strict"
         if mode == "FAIRMQ" then
-          let m := (commitFMQ fixed evt src dst).run fmqDev strict (fmqOf src) script
+          let m := (commitFMQ cfg evt src dst).run fmqDev strict (fmqOf src) script
           let (spec, hyp) :=
             match implRun fmqVocab fmqDev strict (fmqOf src) script impl with
             | some r =>
               (imageOk o2Of r && successOk fmqOf dst r && rollbackOk fmqDev o2Of (rollbackEvt evt) r,
-               hypOf true strict evt r)
+               hypOf strict r)
             | none => (false, "-")
           answer (obsOf fmqVocab rpc m) spec hyp
         else if mode == "DIRECT" then
           let m := (commitDirect evt src dst).run directDev strict src script
           let (spec, hyp) :=
             match implRun directVocab directDev strict src script impl with
-            | some r => (imageOk some r && successOk id dst r, hypOf false strict evt r)
+            | some r => (imageOk some r && successOk id dst r, hypOf strict r)
             | none => (false, "-")
           answer (obsOf directVocab rpc m) spec hyp
         else "BADINPUT\t0\t-"
